@@ -268,7 +268,7 @@ Section G.
   Lemma stmt1_fails pe pl f t r : nonstart (cl t) = true -> stmt1 pe pl f (t :: r) = Fail.
   Proof.
     intro H. unfold StParser.stmt1, StParser.assign, StParser.fbcall, StParser.ident.
-    destruct (cl t) as [| |k0| | | | | | |o| | |k| |]; cbn in H; try discriminate; try reflexivity.
+    destruct (cl t) as [| |k0| | | | | | |o| | |k| | | |]; cbn in H; try discriminate; try reflexivity.
     destruct k; cbn in H; try discriminate; reflexivity.
   Qed.
 
@@ -339,7 +339,7 @@ Section G.
   Lemma eis_follow_closer rest : eis_follow rest -> closer_next rest.
   Proof.
     unfold eis_follow, closer_next. destruct (skip rest) as [|t r]; [exact (fun x => x)|].
-    destruct (cl t) as [| |k0| | | | | | |o| | |k| |]; try contradiction. destruct k; try contradiction; reflexivity.
+    destruct (cl t) as [| |k0| | | | | | |o| | |k| | | |]; try contradiction. destruct k; try contradiction; reflexivity.
   Qed.
 
   Lemma eis_closer e rest : wf_eis e -> eis_follow rest -> closer_next (flat_eis e ++ rest).
@@ -622,7 +622,7 @@ Section G.
       intros _ rest Hrest F L f _ _ Hf. cbn [size_eis] in Hf. cbn [flat_eis erase_eis app].
       assert (Hfail : elsif1 (pexpr F) (plist L) (skip rest) = Fail).
       { unfold eis_follow in Hrest. unfold StParser.elsif1. destruct (skip rest) as [|t r]; [reflexivity|].
-        destruct (cl t) as [| |k0| | | | | | |o| | |k| |]; try contradiction. destruct k; try contradiction; reflexivity. }
+        destruct (cl t) as [| |k0| | | | | | |o| | |k| | | |]; try contradiction. destruct k; try contradiction; reflexivity. }
       split.
       + intro acc. destruct f as [|f]; [lia|]. cbn [StParser.elsifs_more]. rewrite Hfail, app_nil_r. reflexivity.
       + unfold StParser.elsifs. rewrite Hfail. reflexivity.
